@@ -112,9 +112,14 @@ def impl_decode(kind, bs, n_args):
 def eval_cases(ctx, cases):
     """cases: list of dicts {kind: enc|dec, proto: sdp|scp, ...}."""
     reqs, idx = [], []
+    failed = None
     for c in cases:
         if c["kind"] == "enc":
+            if failed is not None and "after_failed_encode" not in c:
+                # all encodes run in one process: an encode that raised comes before this one (kept for the replay)
+                c["after_failed_encode"] = failed
             c["impl"] = impl_encode(c["proto"], c["pkt"])
+            failed = {"proto": c["proto"], "pkt": c["pkt"]} if "err" in c["impl"] else None
             reqs.append(dict(c["pkt"], suite="c15", op="enc_" + c["proto"]))
             idx.append((c, "model"))
             if in_range(c["pkt"]):
@@ -212,4 +217,7 @@ def run(ctx):
 
 def replay(ctx, payload):
     ctx.extra["rule"] = RULE
-    eval_cases(ctx, [payload["case"]])
+    case = payload["case"]
+    if case.get("after_failed_encode"):
+        impl_encode(case["after_failed_encode"]["proto"], case["after_failed_encode"]["pkt"])
+    eval_cases(ctx, [case])
